@@ -33,13 +33,13 @@ package s2
 // (one lemma per generator so that each query evaluates the sorting network twice only)
 //@ lemma exactSignRotate(a Point, b Point, c Point)
 //@   fpcmp
-//@   timeout 120
+//@   timeout 400
 //@   requires vcNoNaN3(a, b, c) && vcDistinct3(a, b, c)
 //@   ensures [rotate] exactSign(a, b, c, true) == exactSign(b, c, a, true)
 
 //@ lemma exactSignSwap(a Point, b Point, c Point)
 //@   fpcmp
-//@   timeout 120
+//@   timeout 400
 //@   requires vcNoNaN3(a, b, c) && vcDistinct3(a, b, c)
 //@   ensures [swap] exactSign(a, b, c, true) == -exactSign(b, a, c, true)
 
